@@ -16,12 +16,15 @@ from harness.props import c17_cases as G
 from harness.props import c17_facts
 from harness.props import c17_facts_ext
 from harness.props import c17_facts_py
+from harness.props import c17_facts_r3
 from harness.props import c17_ext as X
 from harness.props import c17_py as Y
+from harness.props import c17_r3 as Z
 from harness.props import c17_util as U
 
 PROP = "C17"
-DRIVER_MODULES = ["PsutilModel.Model.C17Gen", "PsutilModel.Spec.C17", "PsutilModel.Spec.C17Ext", "PsutilModel.Spec.C17Py"]
+DRIVER_MODULES = ["PsutilModel.Model.C17Gen", "PsutilModel.Spec.C17", "PsutilModel.Spec.C17Ext", "PsutilModel.Spec.C17Py",
+                  "PsutilModel.Spec.C17R3"]
 NEEDS_EXT = True
 TRUSTED = [
     "C17 is PARTIAL: the theorems are about a Lean model of the decoders (struct utmp layout, C-string reads, the Python filters) and of the bounds arithmetic (PSUTIL_STRNCPY, MAC formatting, affinity loop, CPU_SET, pid range, ioprio packing); memory safety of the COMPILED code is supported by differential testing of the real extension in sub-processes, in the thorough tier under clang AddressSanitizer + UBSan — testing, not proof",
@@ -48,6 +51,7 @@ def facts(snap, F):
     c17_facts.facts(snap, F)
     c17_facts_ext.facts(snap, F, c17_facts.c_source, c17_facts.c_function, c17_facts.LINUX_C)
     c17_facts_py.facts(snap, F, c17_facts.c_source, c17_facts.c_function)
+    c17_facts_r3.facts(snap, F, c17_facts.c_source, c17_facts.LINUX_C)
 
 
 # ====================================================================== entry-point formats (harness-level, from the C source)
@@ -155,8 +159,9 @@ class Run:
     def close(self):
         self.w.close()
 
-    def ask(self, cmd, inp):
-        """Worker reply, or None after recording the crash as a spec disagreement."""
+    def ask(self, cmd, inp, finding=None, note=None):
+        """Worker reply, or None after recording the crash as a spec disagreement (tagged with `finding` when the caller
+        knows the model of the current source is undefined on this input because of a listed finding)."""
         try:
             return self.w.ask(cmd)
         except U.Crash as c:
@@ -166,12 +171,15 @@ class Run:
             site = (rep[0] if rep else c.status)[:160]
             self.crash_sites[site] = self.crash_sites.get(site, 0) + 1
             self.res.extra.setdefault("crash_sites", {})[self.tag + ": " + site] = self.crash_sites[site]
-            if self.crash_sites[site] > 2:
+            if finding is not None:
+                self.res.known_seen[finding] = self.res.known_seen.get(finding, 0) + 1
+            if self.crash_sites[site] > 2 and finding is None:
                 return None          # same report again: counted, not listed again (keeps exploring other sites)
             self.res.disagree("spec", dict(inp, build=self.tag), {"kind": "crash", "status": c.status, "sanitizer": rep,
                                                                  "stderr_tail": c.stderr_tail[-600:]},
                               None, {"kind": "value-or-python-exception"},
-                              note="the extension killed / hung the interpreter on this input (%s build)" % self.tag)
+                              note=(note + "; " if note else "") + "the extension killed / hung the interpreter on this input (%s build)" % self.tag,
+                              finding=finding)
             return None
 
 
@@ -260,7 +268,7 @@ def canon_part_case(case):
             "root": None if case["root"] is None else case["root"].hex()}
 
 
-def compare_partitions(run, case, decoded, m_phys, m_all, m_mnt=None):
+def compare_partitions(run, case, decoded, m_phys, m_all, m_mnt=None, m_e2e=None):
     res = run.res
     inp = canon_part_case(case)
     rep = run.ask({"cmd": "partitions", "mounts": case["mounts"].hex(), "filesystems": case["filesystems"].hex(), "all": [False, True],
@@ -306,6 +314,16 @@ def compare_partitions(run, case, decoded, m_phys, m_all, m_mnt=None):
                 res.disagree("model", dict(inp, all=(key == "all")), _short(im), _short(mo), _short(sp),
                              note="disk_partitions(all=%s) differs from the Lean model" % (key == "all"))
                 return
+        if m_e2e is not None:
+            res.count("part:lean_end_to_end")
+            for key, m in (("phys", m_e2e[0]), ("all", m_e2e[1])):
+                im, mo = rep[key], m["model"]
+                if im.get("kind") != mo.get("kind") or (im.get("kind") == "ok" and im["rows"] != mo["rows"]) \
+                        or (im.get("kind") == "exc" and im.get("exc") != mo.get("exc")):
+                    res.disagree("model", dict(inp, all=(key == "all")), _short(im), _short(mo), None,
+                                 note="disk_partitions(all=%s) differs from the Lean text-to-rows model (diskPartitionsPy: /proc/filesystems text + "
+                                      "mounts lines through getmntent, the 4-tuple unpack and the filter)" % (key == "all"))
+                    return
         nontriv = len(decoded) > 0
         if any(d[0] in (b"/dev/root", b"rootfs") for d in decoded):
             res.count("part:rootalias")
@@ -503,7 +521,11 @@ def one_build(ctx, res, run, fmts, first):
         else:
             pl = part_lines(c, dec)
             mi = add(X.mnt_line_for(c["mounts"])) if len(c["mounts"]) <= MNT_MODEL_MAX else None
-            todo.append(("part", (c, dec), (add(pl[0]), add(pl[1]), mi)))
+            ei = None
+            if len(c["mounts"]) <= Z.E2E_MAX and all(U.utf8_ok(t) and U.utf8_ok(o) for _, _, t, o in dec):
+                el = Z.e2e_lines(c, X.mnt_line_for)
+                ei = (add(el[0]), add(el[1]))
+            todo.append(("part", (c, dec), (add(pl[0]), add(pl[1]), mi, ei)))
     eps = run.ask({"cmd": "entrypoints"}, {"kind": "entrypoints"}) or {}
     names = [(m, f) for m in ("linux", "posix") for f in eps.get(m, [])]
     res.extra["entry_points"] = ["%s.%s" % x for x in names]
@@ -578,6 +600,15 @@ def one_build(ctx, res, run, fmts, first):
     for i in range(ctx.n(140, 1400)):
         c = X.gen_ifaddrs_case(rng, X.IF_FAMILIES[i % len(X.IF_FAMILIES)])
         todo.append(("netifaddrs_front", c, add(Y.netifaddrs_line(c))))
+    # ---------------------------------------------------------------- round 3: failure paths + plumbing on the real code path
+    for c in Z.fail_cases():
+        todo.append(("ifaddrs_fail", c, add(Z.fail_line(c))))
+    for c in Z.sockfail_cases():
+        todo.append(("ifr_sockfail", c, None))
+    for c in Z.errmsg_cases():
+        todo.append(("ifr_errmsg", c, tuple(add(l) for l in Z.errmsg_lines(c))))
+    for c in Z.mtab_cases(rng):
+        todo.append(("parts_mtab", c, None))
     # ---------------------------------------------------------------- argument fuzzer
     n_f = ctx.n(6000, 40000) if first else ctx.n(6000, 25000)
     for i in range(n_f):
@@ -613,7 +644,8 @@ def one_build(ctx, res, run, fmts, first):
             if idx is None:
                 compare_partitions(run, c, None, None, None)
             else:
-                compare_partitions(run, c, dec, outs[idx[0]], outs[idx[1]], outs[idx[2]] if idx[2] is not None else None)
+                compare_partitions(run, c, dec, outs[idx[0]], outs[idx[1]], outs[idx[2]] if idx[2] is not None else None,
+                                   (outs[idx[3][0]], outs[idx[3][1]]) if idx[3] is not None else None)
         elif kind == "ifaddrs":
             X.compare_ifaddrs(run, payload[0], payload[1], outs[idx])
         elif kind == "ifr":
@@ -630,6 +662,14 @@ def one_build(ctx, res, run, fmts, first):
             Y.compare_netifstats(run, payload, outs[idx])
         elif kind == "netifaddrs_front":
             Y.compare_netifaddrs_front(run, payload, outs[idx])
+        elif kind == "ifaddrs_fail":
+            Z.compare_ifaddrs_fail(run, payload, outs[idx])
+        elif kind == "ifr_sockfail":
+            Z.compare_sockfail(run, payload)
+        elif kind == "ifr_errmsg":
+            Z.compare_errmsg(run, payload, [outs[i] for i in idx])
+        elif kind == "parts_mtab":
+            Z.compare_mtab(run, payload)
         elif kind == "call":
             compare_call(run, payload, predict_parse(fmts.get((payload["mod"], payload["fn"]), "*"), payload["args"]), outs[idx])
         elif kind == "call_fuzz":
@@ -841,7 +881,10 @@ def _replay_case(ctx, res, inp):
                     else:
                         dec = U.getmntent_decode(case["mounts"])
                         o = drv.batch(part_lines(case, dec) + ([X.mnt_line_for(case["mounts"])] if len(case["mounts"]) <= MNT_MODEL_MAX else []))
-                        compare_partitions(run, case, dec, o[0], o[1], o[2] if len(o) > 2 else None)
+                        e2e = None
+                        if len(case["mounts"]) <= Z.E2E_MAX and all(U.utf8_ok(t) and U.utf8_ok(oo) for _, _, t, oo in dec):
+                            e2e = tuple(drv.batch(Z.e2e_lines(case, X.mnt_line_for)))
+                        compare_partitions(run, case, dec, o[0], o[1], o[2] if len(o) > 2 else None, e2e)
                 elif k == "call":
                     call = inp["call"]
                     fmt = fmts.get((call["mod"], call["fn"]))
@@ -892,6 +935,14 @@ def _replay_case(ctx, res, inp):
                     Y.compare_netifstats(run, inp["case"], drv.batch([{"op": "netifstats", "nics": inp["case"]["nics"]}])[0])
                 elif k == "netifaddrs_front":
                     Y.replay_netifaddrs_front(run, drv, inp)
+                elif k == "ifaddrs_fail":
+                    Z.compare_ifaddrs_fail(run, inp["case"], drv.batch([Z.fail_line(inp["case"])])[0])
+                elif k == "ifr_sockfail":
+                    Z.compare_sockfail(run, inp["case"])
+                elif k == "ifr_errmsg":
+                    Z.compare_errmsg(run, inp["case"], drv.batch(Z.errmsg_lines(inp["case"])))
+                elif k == "parts_mtab":
+                    Z.compare_mtab(run, inp["case"])
                 else:
                     return None
             finally:
